@@ -74,3 +74,30 @@ Example C17_example :
   render [x61; x62; x0a; x20; x20; x63; x64; x20; x65; x0a; x78; x79; x7a] 6
   = ROk 2 [x63; x64; x20; x65] 1.
 Proof. vm_compute. reflexivity. Qed.
+
+(* Property C17 (parsing half) — the position Document.Check (strict mode) reports for a JSON
+   text is the offset of the first byte that cannot continue the text; an input that merely
+   ends early is reported at its last byte.  Proofs live in Json/ViableProofs.v. *)
+From JS Require Json.Scanner Json.Grammar Json.ViableProofs.
+
+Theorem C17_parse_error_at_first_non_viable_byte : forall bs c p,
+  Scanner.check false bs = Scanner.VErr c p ->
+     (c = Scanner.code_invalid_character /\ (N.to_nat p < length bs)%nat /\
+      ViableProofs.viable (firstn (N.to_nat p) bs) /\ ~ ViableProofs.viable (firstn (S (N.to_nat p)) bs))
+  \/ (c = Scanner.code_unexpected_eof /\ bs <> [] /\ p = N.of_nat (length bs - 1) /\
+      ViableProofs.viable bs /\ Grammar.rfc8259 bs = false)
+  \/ (c = Scanner.code_empty_json /\ p = 0%N /\ Grammar.all_blank bs = true).
+Proof. exact ViableProofs.error_position_viable_prefix. Qed.
+Print Assumptions C17_parse_error_at_first_non_viable_byte.
+
+Theorem C17_non_viable_rejected_at_first : forall bs n, (n < length bs)%nat ->
+  ViableProofs.viable (firstn n bs) -> ~ ViableProofs.viable (firstn (S n) bs) ->
+  Scanner.check false bs = Scanner.VErr Scanner.code_invalid_character (N.of_nat n).
+Proof. exact ViableProofs.non_viable_rejected_at_first. Qed.
+Print Assumptions C17_non_viable_rejected_at_first.
+
+Theorem C17_early_end_reported_at_last_byte : forall bs, ViableProofs.viable bs ->
+  Grammar.rfc8259 bs = false -> Grammar.all_blank bs = false ->
+  Scanner.check false bs = Scanner.VErr Scanner.code_unexpected_eof (N.of_nat (length bs - 1)).
+Proof. exact ViableProofs.viable_incomplete_reported_at_end. Qed.
+Print Assumptions C17_early_end_reported_at_last_byte.
